@@ -63,6 +63,11 @@ CHECKS = {
          "blake2xb, blake2xs, keccak: every sequence of depth <= 3 (depth 4 on a reduced size alphabet; thorough: 4 on the full one) over Write/Read/XORKeyStream/Reseed/Clone/Reset with chunk sizes {0,1,64,65,128,129,137,600} and 8 seed lengths (every seed length 0..300 at depth 1); every output and a final probe of every live object compared with fresh New(seed)+absorb+one Read; Reseed modelled as a fresh XOF keyed by the next 128 bytes, Reset as the seeded initial state. random.Bits for every bit length 0..1030; random.Int for every modulus 1..1024 and boundary moduli of every bit length 1..521 under streams incl. modulus-valued prefixes (range, determined by drawn bytes); for 18 moduli <= 65535 ALL first-draw byte strings enumerated: outputs exactly uniform. randstream: all 39 reader sets over {good, short, failing} up to size 3.",
          "Trusted: the XOF implementation used single-shot as its own reference (the property is about chunking/cloning/reseeding/reset).",
          "DESIGN.md §4 C19"),
+ "C16": ("model_checking",
+         "exhaustive enumeration of message lengths x patterns x keys/identities/recipient indices x ciphertext mutations (bit flips, truncations, component replacement) on the real encrypt/decrypt code",
+         "ECIES on 5 groups, IBE-CCA on both assignments and IBE-CPA on every suite with the needed hash-to-group, anonymous-set encryption on 3 suites with set sizes 1..4 and every recipient index: every message length 0..80 and {127,128,129,255,256,4095,4096} (IBE: 0..2*hash size+2): decrypt = plaintext or refusal at encryption; wrong key/identity/index => error (authenticated schemes; the empty IBE message is exempt, see DESIGN); one bit per byte flipped and every truncation => error, never a panic; no aligned 16-byte plaintext window in the ciphertext body; the caller's message buffer (with spare capacity) is left intact by Encrypt.",
+         "Trusted: kyber draws encryption randomness from crypto/rand itself, so only verdicts/plaintexts are compared.",
+         "DESIGN.md §4 C16"),
 }
 
 NOT_YET = "check not built yet in this round (planned: see DESIGN.md §4)"
